@@ -54,11 +54,12 @@ func zipUnix2ExtraHeader(fmeta *fs.Metadata) []byte {
 }
 
 func parseUnix2Header(hdr []byte) (uint32, uint32, error) {
-	if len(hdr) < 8 {
+	// We are handed the block's data section (the id and length fields are already consumed): uid, gid.
+	if len(hdr) < 4 {
 		return 0, 0, Errorf(rio.ErrWareCorrupt, "Corrupt zip File Header. Invalid Unix2 Extra Header")
 	}
-	uid := binary.LittleEndian.Uint16(hdr[4:6])
-	gid := binary.LittleEndian.Uint16(hdr[6:8])
+	uid := binary.LittleEndian.Uint16(hdr[0:2])
+	gid := binary.LittleEndian.Uint16(hdr[2:4])
 	return uint32(uid), uint32(gid), nil
 }
 
